@@ -1,13 +1,31 @@
 import XsVerif.Props.C03
-open XsVerif.Props.C03
+import XsVerif.Props.C03Types
+import XsVerif.Props.C03Deriv
+open XsVerif.Props.C03 XsVerif.Props.C03Types XsVerif.Props.C03Deriv
 #print axioms attrs_valid_iff
-#print axioms attrs_valid_iff_pinned_partial
-#print axioms pinned_eq_repaired
-#print axioms pinned_counterexample_admits
-#print axioms pinned_counterexample_injects
+#print axioms oldstep_admits_counterexample
+#print axioms oldstep_injects_counterexample
 #print axioms decoded_absent_iff
 #print axioms absent_fixed_reported
 #print axioms absent_default_iff
 #print axioms absent_silent
 #print axioms required_error_located
 #print axioms unknown_attr_error
+#print axioms semCat_refl
+#print axioms fixed_test_equiv
+#print axioms attrs_valid_iff_cat
+#print axioms fixed_test_value_partial
+#print axioms fixed_qname_rejects_counterexample
+#print axioms fixed_qname_admits_counterexample
+#print axioms fixed_test_qname
+#print axioms token_collapse_invariant
+#print axioms string_test_exact
+#print axioms collect_wildcard_spec
+#print axioms oldpc_counterexample
+#print axioms derived_decl_iff
+#print axioms derived_wildcard_extension
+#print axioms derived_wildcard_restriction
+#print axioms derived_valid_iff
+#print axioms valid_perm
+#print axioms id_build_iff
+#print axioms defaults_decl_iff
